@@ -92,6 +92,10 @@ pub struct SimConfig {
     pub max_delay_ns: u64,
     /// cap for a single exec-cost event (charged to the global clock), ns
     pub max_exec_cost_ns: u64,
+    /// PCT-style scheduling (Burckhardt et al.): 0 = off (weighted random walk); d > 0 = strict
+    /// random thread priorities with d priority-change points drawn in `0..pct_span` steps
+    pub pct_depth: u32,
+    pub pct_span: u32,
 }
 
 impl Default for SimConfig {
@@ -107,6 +111,8 @@ impl Default for SimConfig {
             exec_cost_mean_gap: 64,
             max_delay_ns: 2_000_000_000,
             max_exec_cost_ns: 20_000_000,
+            pct_depth: 0,
+            pct_span: 2000,
         }
     }
 }
@@ -204,6 +210,8 @@ struct Slot {
     steps: u64,
     stall: Option<(u64, u64)>,
     weight: u32,
+    /// PCT priority (only read when `pct_depth > 0`)
+    prio: u64,
     done_res: ResId,
     panicked: Option<String>,
 }
@@ -230,6 +238,9 @@ struct Core {
     progress_mark: u64,
     progress_events: u64,
     progress_window_ok: bool,
+    /// PCT: steps at which the running thread drops below everybody, next low priority
+    pct_points: Vec<u64>,
+    pct_low: u64,
 }
 
 pub struct Shared {
@@ -293,6 +304,10 @@ impl Core {
         self.steps += 1;
         self.slots[me].steps += 1;
         self.now += self.cfg.step_cost_ns;
+        if self.cfg.pct_depth > 0 && self.pct_points.contains(&self.steps) {
+            self.slots[me].prio = self.pct_low;
+            self.pct_low = self.pct_low.saturating_sub(1);
+        }
         if self.cfg.rate(Fk::ExecCost) > 0 {
             if self.next_cost_in == 0 {
                 // the cost is charged to the global clock (everybody is late by it): keep single
@@ -365,6 +380,24 @@ impl Core {
                 if i != me && matches!(s.state, St::Runnable) {
                     others.push(i);
                 }
+            }
+            if self.cfg.pct_depth > 0 && (me_runnable || !others.is_empty()) {
+                // strict priorities; ties go to the lowest id
+                let mut best = if me_runnable { Some(me) } else { None };
+                for &i in &others {
+                    best = match best {
+                        None => Some(i),
+                        Some(b) => {
+                            let (pb, pi) = (self.slots[b].prio, self.slots[i].prio);
+                            if pi > pb || (pi == pb && i < b) {
+                                Some(i)
+                            } else {
+                                Some(b)
+                            }
+                        }
+                    };
+                }
+                return best;
             }
             if me_runnable {
                 if others.is_empty() {
@@ -865,6 +898,7 @@ where
             weight = [1u32, 2, 32, 64][c.fault.draw(4) as usize];
             c.fired[Fk::Weight as usize] += 1;
         }
+        let prio = if c.cfg.pct_depth > 0 { 1_000_000 + c.sched.draw(1_000_000) as u64 } else { 0 };
         c.slots.push(Slot {
             name,
             host,
@@ -875,6 +909,7 @@ where
             steps: 0,
             stall,
             weight,
+            prio,
             done_res,
             panicked: None,
         });
@@ -940,6 +975,7 @@ where
             steps: 0,
             stall: None,
             weight: 8,
+            prio: 1_500_000,
             done_res: 1,
             panicked: None,
         }],
@@ -962,7 +998,17 @@ where
         progress_mark: 0,
         progress_events: 0,
         progress_window_ok: true,
+        pct_points: vec![],
+        pct_low: 999_999,
     };
+    let mut core = core;
+    if core.cfg.pct_depth > 0 {
+        let span = core.cfg.pct_span.max(1);
+        for _ in 0..core.cfg.pct_depth {
+            let p = 1 + core.sched.draw(span) as u64;
+            core.pct_points.push(p);
+        }
+    }
     let sh = Arc::new(Shared {
         core: Mutex::new(core),
         done: (Mutex::new(false), Condvar::new()),
